@@ -320,9 +320,78 @@ func specVectors(col *Collector, prefix string) {
 	}
 }
 
+// retainedJSON: a caller keeps every decoded text (streamer.go stores the returned slice in ColumnData.Data without
+// copying). Decode a run of documents back to back, keep the returned slices, and only then compare each of them with
+// the Spec's text: a decoder that recycles its output buffer passes every decode-then-compare case.
+func retainedJSON(col *Collector, r *RNG, tier string) {
+	rounds := 6
+	if tier == "thorough" {
+		rounds = 40
+	}
+	for k := 0; k < rounds; k++ {
+		n := r.Range(2, 24)
+		var lines, specs []string
+		var docs [][]byte
+		for i := 0; i < n; i++ {
+			g := &jgen{r: r, maxFan: 6, budget: 600, noDouble: true}
+			line := "jdoc doc=" + g.doc(r.Range(0, 3))
+			ans, err := theDriver.Ask(line)
+			if err != nil {
+				continue
+			}
+			f := fields(ans)
+			lines, specs, docs = append(lines, line), append(specs, f["spec"]), append(docs, exact(unhx(f["bytes"])))
+		}
+		for _, viaCell := range []bool{false, true} {
+			kept := make([][]byte, len(docs))
+			good := true
+			for i, b := range docs {
+				func() {
+					defer func() {
+						if recover() != nil {
+							good = false
+						}
+					}()
+					if viaCell {
+						cell := exact(append(leBytes(uint64(len(b)), 4), b...))
+						v, _, err := replication.CellBytes(cell, 0, 245, 4, false)
+						if err != nil {
+							good = false
+						}
+						kept[i] = v
+					} else {
+						t, err := replication.VerifPrintJSONData(b)
+						if err != nil {
+							good = false
+						}
+						kept[i] = t
+					}
+				}()
+			}
+			if !good {
+				continue // decode failures are the business of the per-document cases
+			}
+			ok, note, first := true, "", ""
+			for i := range kept {
+				if hx(kept[i]) != specs[i] {
+					ok = false
+					first = lines[i]
+					note = fmt.Sprintf("document %d of %d decoded back to back: its text, kept by the caller, reads %q after the later decodes, want %q", i, len(kept), clip(string(kept[i]), 120), clip(string(unhx(specs[i])), 120))
+					break
+				}
+			}
+			desc := strings.Join(lines, " ;; ")
+			if first != "" {
+				desc = first + " ;; then " + strings.Join(lines, " ;; ")
+			}
+			col.AddScenario("json-retained", desc, len(docs) > 1, ok, true, note, "json-result-overwritten", fmt.Sprintf("%d texts kept, viaCell=%v", len(kept), viaCell), "")
+		}
+	}
+}
+
 func init() {
 	register(&Property{ID: "C14", Gen: genC14,
-		Extra: func(c *Collector, r *RNG, tier string) { specVectors(c, "jdoc ") },
+		Extra: func(c *Collector, r *RNG, tier string) { specVectors(c, "jdoc "); retainedJSON(c, r, tier) },
 		Replay: func(line string) []Case {
 			f := fields(line)
 			var e []string
@@ -334,5 +403,5 @@ func init() {
 			}
 			return nil
 		},
-		Rule: "documents from a recursive generator (depth <= 4 quick / 6 thorough, fan-out <= 12 / 40, keys and strings without quote characters, integers at every width boundary, doubles incl. extremes, opaque date / time (both signs) / datetime / decimal), each container in small or (forced / natural >= 64KB) large format, serialised by the independent Lean writer; decoded by printJSONData and through CellBytes(TypeJSON); variable-length prefixes 0..2^32-1; truncated documents for correspondence; the Spec writer itself is checked against 31 byte vectors captured from real servers. Non-trivial: containers"})
+		Rule: "documents from a recursive generator (depth <= 4 quick / 6 thorough, fan-out <= 12 / 40, keys and strings without quote characters, integers at every width boundary, doubles incl. extremes, opaque date / time (both signs) / datetime / decimal), each container in small or (forced / natural >= 64KB) large format, serialised by the independent Lean writer; decoded by printJSONData and through CellBytes(TypeJSON); variable-length prefixes 0..2^32-1; truncated documents for correspondence; the Spec writer itself is checked against 31 byte vectors captured from real servers; runs of 2..24 documents decoded back to back with every returned text kept and compared only afterwards (a recycled output buffer). Non-trivial: containers"})
 }
